@@ -1,6 +1,7 @@
 // Copyright Amazon.com, Inc. or its affiliates. All Rights Reserved.
 // SPDX-License-Identifier: Apache-2.0
 
+#[cfg(not(metrique_verif))]
 use std::{
     sync::{
         Arc,
@@ -9,9 +10,25 @@ use std::{
     thread,
     time::{Duration, Instant},
 };
+#[cfg(metrique_verif)]
+use ::{
+    detsim::{
+        sync::atomic::{AtomicBool, Ordering},
+        thread,
+        time::Instant,
+    },
+    std::{sync::Arc, time::Duration},
+};
 
+#[cfg(not(metrique_verif))]
 use crossbeam_queue::ArrayQueue;
+#[cfg(not(metrique_verif))]
 use crossbeam_utils::sync::{Parker, Unparker};
+#[cfg(metrique_verif)]
+use detsim::{
+    queue::ArrayQueue,
+    sync::{Parker, Unparker},
+};
 use metrique_writer_core::{
     BoxEntrySink, EntryIoStream, IoStreamError, ValidationError, sink::FlushWait,
 };
